@@ -34,6 +34,16 @@ func c02(c *Ctx) {
 	w.maskImpl("C02.mask-impl")
 	t := newTransport(c)
 	c10invalidAs(c, t, "C02.control-shape")
+	r.Rule("C02.prepared-payload", "a PreparedMessage's payload snapshot is the application's bytes: the rendering it is cut from is a single frame (same rule as C19.single-frame)")
+	preparedSingleFrame(c, "C02.prepared-payload")
+	r.Rule("C02.whole-frames", "the stream stays a sequence of whole frames: every transport write happens inside the Conn.mu critical section (no interleaving of two frames) after re-reading the sticky write error inside the lock (no frame is appended after a partially written one) — same rule as C09.protocol / C10.fail-stop")
+	t.classify("C02.whole-frames")
+	for _, fn := range c.P.FuncList {
+		if t.sites[fn] && !t.unprot[fn] {
+			t.checkSection(fn, "C02.whole-frames", "")
+		}
+	}
+	r.Floor("C02.whole-frames", 4)
 }
 
 // frameHeader checks every path of flushFrame that reaches write.
